@@ -302,6 +302,124 @@ def finite_mode_search(chk, n_cases):
                      f"(epsrel {eps}, memory {mem})", info)
 
 
+def scenario_search(chk, n_cases):
+    """one harmonic mode given through its autocorrelation function; the system is arbitrary: explicitly time-dependent
+    Hamiltonian, rates and Lindblad operators, a start time, control operations (integer steps or float times, pre / post),
+    degeneracy checking on or off, a rotated coupling operator, TEMPO or PT-TEMPO (in memory / written to a file) followed by
+    compute_dynamics.  Oracle: the explicit system + mode evolution in Liouville space with the same symmetric splitting and the
+    same sampling of the generator (subdiv_limit=None: at t + dt/4 and t + 3dt/4)."""
+    from scipy.linalg import expm
+    rng = chk.rng
+    for it in range(n_cases):
+        d = rng.choice([2, 2, 3])
+        T = rng.choice([0.0, 0.4])
+        wm, gm = rng.choice([1.0, 1.7, 2.4]), rng.choice([0.15, 0.3])
+        nf = 12
+        dt = rng.choice([0.1, 0.2])
+        n = rng.randint(2, 5)
+        start = rng.choice([0.0, 0.0, 0.7, -1.3])
+        o = np.array([rng.choice([-1.0, -0.5, 0.0, 0.5, 1.0]) for _ in range(d)])
+        if len(set(o)) == 1:
+            o[0] += 0.5
+        V = haar(rng, d) if rng.random() < 0.5 else np.eye(d)
+        O = V @ np.diag(o) @ V.conj().T
+        O = (O + O.conj().T) / 2
+        mk = lambda: np.array([[rng.gauss(0, 1) + 1j * rng.gauss(0, 1) for _ in range(d)] for _ in range(d)])
+        a0, a1, l0, l1 = mk(), mk(), mk() / 2, mk() / 4
+        H0, H1 = (a0 + a0.conj().T) / 3, (a1 + a1.conj().T) / 4
+        tdep = rng.random() < 0.6
+        diss = rng.random() < 0.6
+        hfun = (lambda t: H0 + np.sin(1.3 * t) * H1) if tdep else (lambda t: H0)
+        gfun = (lambda t: 0.2 + 0.1 * np.cos(t)) if tdep else (lambda t: 0.25)
+        lfun = (lambda t: l0 + 0.5 * t * l1) if tdep else (lambda t: l0)
+        if diss:
+            sysm = oqupy.TimeDependentSystem(hfun, gammas=[gfun], lindblad_operators=[lfun])
+        else:
+            sysm = oqupy.TimeDependentSystem(hfun)
+        b_ = mk()
+        rho0 = b_ @ b_.conj().T
+        rho0 /= np.trace(rho0)
+        unique = rng.random() < 0.4
+        route = rng.choice(["tempo", "pttempo", "pttempo-file"])
+        ckind = rng.choice(["none", "none", "int", "float"])
+        pre, post = {}, {}
+        ctrl = None
+        if ckind != "none":
+            ctrl = oqupy.Control(d)
+            for k in range(n + 1):
+                for side, table in ((False, pre), (True, post)):
+                    if rng.random() < 0.35 and not (side and k == n):
+                        u_ = haar(rng, d)
+                        m_ = np.kron(u_, u_.conj()) if rng.random() < 0.6 else np.kron(mk() / 2, np.eye(d))
+                        table[k] = m_
+                        key = k if ckind == "int" else float(start + (k + rng.choice([0.0, 0.3, -0.3])) * dt)
+                        ctrl.add_single(key, m_.copy(), post=side)
+
+        def C(t, wm=wm, gm=gm, T=T):
+            t = np.asarray(t, dtype=float)
+            coth = 1.0 if T == 0 else 1.0 / np.tanh(wm / (2 * T))
+            return gm * gm * (coth * np.cos(wm * t) - 1j * np.sin(wm * t))
+        eps = 1e-9
+        par = oqupy.TempoParameters(dt=dt, epsrel=eps, dkmax=None, subdiv_limit=None)
+        info = {"kind": "scenario", "d": d, "T": T, "mode": [wm, gm], "dt": dt, "n": n, "start": start, "time_dependent": tdep, "dissipative": diss,
+                "unique": unique, "route": route, "controls": ckind, "pre": sorted(pre), "post": sorted(post), "rotated_coupling": not np.allclose(V, np.eye(d))}
+        try:
+            bath = oqupy.Bath(O, oqupy.CustomCorrelations(C))
+            if route == "tempo" and ctrl is None:
+                states = np.array(quiet(oqupy.Tempo(sysm, bath, par, rho0, start, unique=unique).compute, start + n * dt, progress_type="silent").states)
+            else:
+                info["route"] = route = "pttempo" if route == "tempo" else route
+                pt = quiet(oqupy.pt_tempo_compute, bath, start, start + n * dt, parameters=par, unique=unique,
+                           process_tensor_file=True if route == "pttempo-file" else None, progress_type="silent")
+                states = np.array(quiet(oqupy.compute_dynamics, sysm, initial_state=rho0, process_tensor=pt, start_time=start, control=ctrl,
+                                        subdiv_limit=None, progress_type="silent").states)
+                if route == "pttempo-file":
+                    pt.remove()
+        except Exception as ex:
+            chk.fail("scenario-raises", f"the computation raises {ex!r}", info)
+            continue
+        # explicit system + mode evolution; joint density matrix R[a, m, b, m']
+        lad = np.diag(np.sqrt(np.arange(1, nf)), 1)
+        U = expm(-1j * (np.kron(np.eye(d), wm * lad.T @ lad) + np.kron(O, gm * (lad + lad.T))) * dt)
+        pth = np.array([1.0] + [0.0] * (nf - 1)) if T == 0 else np.exp(-wm * np.arange(nf) / T)
+        pth = pth / pth.sum()
+        R = np.einsum("ab,mn->ambn", rho0, np.diag(pth)).astype(complex)
+        I_ = np.eye(d)
+
+        def liou(t):
+            H, g, A = hfun(t), gfun(t), lfun(t)
+            L = -1j * (np.kron(H, I_) - np.kron(I_, H.T))
+            if diss:
+                AdA = A.conj().T @ A
+                L = L + g * (np.kron(A, A.conj()) - 0.5 * np.kron(AdA, I_) - 0.5 * np.kron(I_, AdA.T))
+            return L
+
+        def sys_apply(S, R):
+            S4 = S.reshape(d, d, d, d)            # [(a b), (c e)]
+            return np.einsum("abce,cmen->ambn", S4, R)
+        worst = 0.0
+        for k in range(n + 1):
+            if k in pre:
+                R = sys_apply(pre[k], R)
+            want = np.einsum("ambm->ab", R)
+            worst = max(worst, np.abs(states[k] - want).max() / max(1.0, np.abs(want).max()))
+            if k == n:
+                break
+            if k in post:
+                R = sys_apply(post[k], R)
+            t = start + k * dt
+            R = sys_apply(expm(liou(t + dt / 4) * dt / 2), R)
+            Rm = R.reshape(d * nf, d * nf)
+            R = (U @ Rm @ U.conj().T).reshape(d, nf, d, nf)
+            R = sys_apply(expm(liou(t + 3 * dt / 4) * dt / 2), R)
+        chk.search_cases += 1
+        chk.count("scenario_" + route)
+        chk.case(dict(info, max_dev=worst), ("scenario", d, T, dt, n, start, tdep, diss, unique, route, ckind, it))
+        if worst > 1e-6:
+            chk.fail("scenario", f"{route} deviates from the explicitly simulated system + mode evolution by {worst:.2e} (time-dependent={tdep}, dissipative={diss}, "
+                     f"start_time={start}, controls={ckind}, unique={unique})", info)
+
+
 def run(chk):
     thorough = chk.tier == "thorough"
     chk.proofs()
@@ -316,6 +434,7 @@ def run(chk):
     compare_infl(chk, vals[nb:], expected[nb:], meta[nb:])
     boson_search(chk, 40 if (thorough or chk.disagreements or chk.broken) else 10)
     finite_mode_search(chk, 24 if (thorough or chk.disagreements or chk.broken) else 6)
+    scenario_search(chk, 40 if (thorough or chk.disagreements or chk.broken) else 10)
     return chk.finish(
         level="proof",
         trusted=["models: Model/Schedule.v, Model/Shapes.v, Model/PathSum.v; exp enters only as 'exp of a sum is the product of exps' (np.exp applied by the "
